@@ -248,7 +248,8 @@ def run_job(job):
         p = subprocess.Popen(cmd, cwd=cwd, env=env, stdout=subprocess.PIPE, stderr=subprocess.PIPE, text=True,
                              errors="replace", start_new_session=True)
         try:
-            r.out, r.err = p.communicate(timeout=job.timeout)
+            # the watchdog only ever yields "inconclusive"; on a loaded machine it can be stretched (VERIF_TIMEOUT_SCALE=3)
+            r.out, r.err = p.communicate(timeout=job.timeout * float(os.environ.get("VERIF_TIMEOUT_SCALE", "1")))
         except subprocess.TimeoutExpired:
             r.timed_out = True
             try:
